@@ -1492,6 +1492,31 @@ impl Engine for StorEngine {
     if prop == "C04" && !ctx::has_violation() && ctx::choose(8) == 0 {
       lookalike_reference_and_insert();
     }
+    if prop == "C04" && !ctx::has_violation() && ctx::choose(16) == 0 {
+      custom_method_data_with_property();
+    }
+  }
+}
+
+/// A method whose key material is custom method data (`blockchainAccountId`-style) AND that carries a further
+/// property: in the flattened JSON form nothing tells the two apart, so the round trip may swap them.
+fn custom_method_data_with_property() {
+  let did = "did:sim:urlids";
+  let j = serde_json::json!({"id": format!("{did}#c1"), "controller": did, "type": "EcdsaSecp256k1RecoveryMethod2020", "blockchainAccountId": "eip155:1:0xabc"});
+  let Ok(mut m) = VerificationMethod::from_json_value(j) else { return };
+  m.properties_mut().insert(["note", "aaa", "zzz"][ctx::choose(3)].to_owned(), Value::from("x"));
+  let mut doc = CoreDocument::builder(Default::default()).id(CoreDID::parse(did).unwrap()).build().expect("empty doc");
+  if doc.insert_method(m, to_scope(None)).is_err() {
+    return;
+  }
+  ctx::stat("probe.custom_method_data_with_property");
+  let r = doc
+    .to_json()
+    .map_err(|e| e.to_string())
+    .and_then(|j| CoreDocument::from_json(&j).map_err(|e| format!("own JSON rejected: {e}")))
+    .and_then(|back| if back == doc { Ok(()) } else { Err("JSON round trip yields a different document".to_owned()) });
+  if let Err(e) = r {
+    ctx::violation("C04", "C04.round_trip", "custom-method-data-with-additional-property", format!("method with custom method data and one more property: {e}"));
   }
 }
 
